@@ -234,7 +234,7 @@ package netceptor
 //@   ensures REJECTED: [C11] result != nil
 
 //@ func (*Netceptor).handleRoutingUpdate
-//@   tags C06 C07
+//@   tags C01 C06 C07
 //@   safetytags C07
 //@   safety
 //@   requires s != nil && ri != nil
@@ -246,6 +246,9 @@ package netceptor
 //@   site mapupdate Netceptor.seenUpdates REMEMBER: [C06] requires key == ri.UpdateID && !acqof("seenUpdatesLock", key in s.seenUpdates)
 //@   site mapupdate Netceptor.knownNodeInfo ACCEPT: [C06] requires key == ri.NodeID && value != nil && value.Epoch == ri.UpdateEpoch && value.Sequence == ri.UpdateSequence && ri.NodeID != s.nodeID
 //@        && (!acqof("knownNodeLock", ri.NodeID in s.knownNodeInfo) || newer(ri.UpdateEpoch, ri.UpdateSequence, acqof("knownNodeLock", s.knownNodeInfo[ri.NodeID].Epoch), acqof("knownNodeLock", s.knownNodeInfo[ri.NodeID].Sequence)))
+//@   site delete map[string]float64 PRUNE: [C01] requires conn != s.nodeID && key == ri.NodeID && !(conn in ri.Connections) && themap == s.knownConnectionCosts[conn]
+//@   site mapupdate Netceptor.knownConnectionCosts REPLACE: [C01] requires key == ri.NodeID && ri.NodeID != s.nodeID && value != nil
+//@   site mapupdate map[string]float64 COPYADJ: [C01] requires themap == s.knownConnectionCosts[ri.NodeID] && key == k && value == v && (k in ri.Connections) && v == ri.Connections[k]
 //@   site call sendRoutingUpdate SUSPECT: [C06] requires ri.NodeID == s.nodeID && ri.UpdateEpoch > s.epoch && arg1 == ri.UpdateEpoch
 //@   site call Shutdown DUPLICATE: [C06 C11] requires ri.NodeID == s.nodeID && ri.SuspectedDuplicate == s.epoch && ri.UpdateEpoch != s.epoch
 
@@ -319,3 +322,22 @@ package netceptor
 //@ func (*Netceptor).Shutdown
 //@   tags C17
 //@   requires s != nil
+
+// ---- C01: the routing table is rebuilt from the known picture by label-correcting relaxation
+
+//@ func (*Netceptor).printRoutingTable
+//@   trusted
+//@   modifies nothing
+
+//@ func (*Netceptor).updateRoutingTable
+//@   tags C01 C07
+//@   requires s != nil
+//@   site mapupdate map[string]float64@1 INITSELF: [C01] requires themap == cost && key == node && value == 0.0 && node == s.nodeID
+//@   site mapupdate map[string]float64@2 INITOTHER: [C01] requires themap == cost && key == node && node != s.nodeID
+//@   site mapupdate map[string]float64@3 RELAX: [C01] requires themap == cost && key == neighbor && value == pathCost && pathCost == cost[node] + edgeCost && pathCost < cost[neighbor]
+//@        && (node in s.knownConnectionCosts) && (neighbor in s.knownConnectionCosts[node]) && edgeCost == s.knownConnectionCosts[node][neighbor]
+//@   site mapupdate map[string]string@1 INITPREV: [C01] requires themap == prev && key == node && value == ""
+//@   site mapupdate map[string]string@2 PREV: [C01] requires themap == prev && key == neighbor && value == node && cost[neighbor] == pathCost
+//@   site mapupdate map[string]string@3 COPY: [C01] requires themap != prev && key == k && value == v
+//@   site mapupdate Netceptor.routingTable NEXTHOP: [C01] requires key == dest && value == p && prev[p] == s.nodeID && (dest in s.knownConnectionCosts)
+//@   site store Netceptor.routingPathCosts COSTS: [C01] requires value == cost
